@@ -337,17 +337,20 @@ fraction `d_o/S' ≤ 1` of one token. -/
 theorem burnS_stakeQ_other {s s' : SState} {a d : Int} {key k' : AccKey} (hne : k' ≠ key) (hsame : k'.2 = key.2)
     (hT : 0 < (s.k.val key.2).tokens) (hS : 0 < (s.k.val key.2).shares) (hd : s.k.dsh key = some d)
     (hd0 : 0 ≤ shOf s.k k') (hsum : shOf s.k k' + d ≤ (s.k.val key.2).shares) (h : burnS s a key = .ok s') :
-    stakeQ s.k k' - uQ / 2 ≤ stakeQ s'.k k' ∧ stakeQ s'.k k' ≤ stakeQ s.k k' + fracQ s'.k k' := by
+    stakeQ s.k k' - uQ / 2 ≤ stakeQ s'.k k' ∧ stakeQ s'.k k' ≤ stakeQ s.k k' + fracQ s'.k k' ∧
+    fracQ s'.k k' ≤ 1 ∧ (shOf s'.k key = shOf s.k key → stakeQ s'.k k' = stakeQ s.k k') := by
   obtain ⟨sh, got, f1, f2, f3, f4, ha, hd', _, hcase⟩ := burnS_effect hT hS hd h
   obtain ⟨fr, _⟩ := burnS_frame h
   have esh : shOf s'.k k' = shOf s.k k' := by unfold shOf; rw [fr k' hne]
   have hu := uQ_pos
+  have e0 : shOf s.k key = d := shOf_of_some hd
+  have e1 : shOf s'.k key = d - sh := shOf_ite hd'
   rcases hcase with ⟨r1, r2, r3⟩ | ⟨r1, r2, r3, r4, q, tfs, q1, q2, hr, g1, g2⟩
   · have hz : shOf s.k k' = 0 := by omega
     unfold stakeQ fracQ
     rw [esh, hz]
     simp only [Int.cast_zero, zero_mul, zero_div, add_zero]
-    constructor <;> linarith
+    refine ⟨by linarith, by linarith, by norm_num, fun _ => trivial⟩
   · have hS' : 0 < (s.k.val key.2).shares - sh := by omega
     obtain ⟨t1, t2, t3, t4⟩ := burn_terms hS hT f1 f2 q1 q2 hr g1 g2
     have hSq : (0 : ℚ) < ((s.k.val key.2).shares : ℚ) := by exact_mod_cast hS
@@ -367,6 +370,14 @@ theorem burnS_stakeQ_other {s s' : SState} {a d : Int} {key k' : AccKey} (hne : 
     rw [e]
     have hf0 : 0 ≤ D / (S - sh) := div_nonneg hd'0 hS'q.le
     have hf1 : D / (S - sh) ≤ 1 := div_le_one_of_le₀ hd'1 hS'q.le
-    constructor <;> nlinarith
+    refine ⟨by nlinarith, by nlinarith, hf1, ?_⟩
+    intro hh
+    have hsh0 : sh = 0 := by omega
+    have hg0 : got = 0 := by
+      subst hsh0
+      have := RefreshArith.got_le (a := 0) P18_pos hS (by omega) q1 hr g1
+      omega
+    rw [hsh0, hg0]
+    simp
 
 end OsmoVerif.Superfluid
